@@ -78,6 +78,8 @@ class Renderer:
             return obj.__name__
         if isinstance(obj, str) and name == "__name__":
             return obj
+        if isinstance(obj, slice) and name in ("start", "stop", "step"):
+            return getattr(obj, name)
         raise KeyError(name)
 
     def ev(self, t, env):
@@ -148,8 +150,8 @@ class Renderer:
             if isinstance(lit, (ast.Set, ast.Tuple, ast.List)) and all(isinstance(x, ast.Attribute) and isinstance(x.value, ast.Name) and x.value.id == "operator" for x in lit.elts):
                 # a module-level collection of operator functions, in the spelling the symbolic trees carry
                 return {self.ev(("attr", ("free", "operator"), x.attr), env) for x in lit.elts}
-            if t[1] in ("int", "float", "str", "bytes", "bool", "complex", "repr"):
-                return {"int": int, "float": float, "str": str, "bytes": bytes, "bool": bool, "complex": complex, "repr": repr}[t[1]]
+            if t[1] in ("int", "float", "str", "bytes", "bool", "complex", "repr", "slice", "tuple", "list"):
+                return {"int": int, "float": float, "str": str, "bytes": bytes, "bool": bool, "complex": complex, "repr": repr, "slice": slice, "tuple": tuple, "list": list}[t[1]]
             raise KeyError(t[1])
         if k == "call":
             f = t[1]
@@ -222,6 +224,18 @@ def shape_of_ast(n):
         return ("name", n.id)
     if isinstance(n, ast.Subscript):
         return ("item", shape_of_ast(n.value), shape_of_ast(n.slice))
+    if isinstance(n, ast.Slice) or (isinstance(n, ast.Call) and isinstance(n.func, ast.Name) and n.func.id == "slice" and 1 <= len(n.args) <= 3 and not n.keywords):
+        # a slice in either spelling (a:b:c / slice(a, b, c)) with literal parts is the slice object itself
+        parts = [n.lower, n.upper, n.step] if isinstance(n, ast.Slice) else ([None] * (3 - max(len(n.args), 2)) + list(n.args) if len(n.args) == 1 else list(n.args) + [None] * (3 - len(n.args)))
+        if len(parts) == 2:
+            parts = [None] + parts
+        vals = []
+        for x in parts:
+            sh = ("const", None) if x is None else shape_of_ast(x)
+            if sh[0] != "const":
+                return ("other", "slice with non-literal part")
+            vals.append(sh[1])
+        return ("const", slice(*vals))
     if isinstance(n, ast.Call):
         return ("call", shape_of_ast(n.func), tuple(shape_of_ast(a) for a in n.args))
     return ("other", type(n).__name__)
@@ -378,6 +392,11 @@ def run(ctx):
     obj_ = mk("path", name="obj_", field=None, parent=None)
     leaves = [("placeholder", mk("path", name="this", field="a", parent=this)), ("nested path", mk("path", name="this", field="c", parent=mk("path", name="this", field="_", parent=this))),
               ("obj_", obj_), ("int", 7), ("negative int", -5), ("bool", True), ("str", "ab"), ("bytes", b"xy"), ("func", mk("func", func="len", operand=mk("path", name="this", field="b", parent=this)))]
+    # subscripts of every kind a context expression can carry: integer index, and slices with a missing / zero / negative part
+    Pd = mk("path", name="this", field="d", parent=this)
+    leaves += [("int subscript", mk("path", name="this", field=0, parent=Pd)), ("slice subscript", mk("path", name="this", field=slice(1, None, None), parent=Pd)),
+               ("slice to zero", mk("path", name="this", field=slice(None, 0, None), parent=Pd)), ("slice with step", mk("path", name="this", field=slice(2, 0, -1), parent=Pd)),
+               ("list_ subscript", mk("path2", name="list_", index=slice(None, 0, None), parent=mk("path2", name="list_", index=None, parent=None)))]
     bin_ops = sorted({v[0] for v in BINARY_DUNDERS.values()})
     un_ops = ["neg", "pos", "not_"]
     rev = {OPERATOR_ALIASES.get(k, k): k for k in opn}
@@ -472,7 +491,7 @@ def run(ctx):
         ctx.ob("C11.R5", name, ok, "%s is %s(%r): it renders as the name generated code binds" % (name, cls, name), key="root %s" % name, loc=EXPR)
     prologue_check(ctx, "C11.R5")
     fn = mk("func", func="len", operand=None)
-    ctx.ob("C11.R5", M.method("FuncPath", "__repr__"), rnd.render(fn, "__repr__") == "len_" and rnd.render(leaves[-1][1], "__repr__").startswith("len_("), "FuncPath renders as <function name>_ and <function name>_(operand)", key="FuncPath name")
+    ctx.ob("C11.R5", M.method("FuncPath", "__repr__"), rnd.render(fn, "__repr__") == "len_" and rnd.render(dict(leaves)["func"], "__repr__").startswith("len_("), "FuncPath renders as <function name>_ and <function name>_(operand)", key="FuncPath name")
     fi, paths = own_method_paths(ctx, "RepeatUntil", "_emitparse")
     # this.<name> must be a path step for *every* field name: the path classes reserve no plain attribute (method, property, class constant)
     for cname in ("ExprMixin", "Path", "Path2"):
